@@ -92,6 +92,16 @@ CertMsg(j) ==
       alg == IF j <= Len(CertCodes) THEN 8 ELSE AlgCodes[j - Len(CertCodes)] IN
   One1(37, [Type |-> ty, KeyTag |-> 12345, Algorithm |-> alg, Certificate |-> <<1, 2, 3, 4, 5, 6, 7, 8>>])
 
+\* LOC inside RFC 1876's ranges: equator / poles / date line, whole and fractional seconds, sizes 0 .. 9e9 cm
+LocCases == <<
+  [Version |-> 0, Size |-> 18, HorizPre |-> 22, VertPre |-> 19, Latitude |-> <<128, 0, 0, 0>>, Longitude |-> <<128, 0, 0, 0>>, Altitude |-> <<0, 152, 150, 128>>],
+  [Version |-> 0, Size |-> 0, HorizPre |-> 0, VertPre |-> 0, Latitude |-> <<147, 79, 217, 0>>, Longitude |-> <<166, 159, 178, 0>>, Altitude |-> <<0, 0, 0, 0>>],
+  [Version |-> 0, Size |-> 153, HorizPre |-> 144, VertPre |-> 17, Latitude |-> <<108, 176, 39, 0>>, Longitude |-> <<89, 96, 78, 0>>, Altitude |-> <<255, 255, 255, 255>>],
+  [Version |-> 0, Size |-> 18, HorizPre |-> 22, VertPre |-> 19, Latitude |-> <<137, 192, 195, 248>>, Longitude |-> <<116, 211, 145, 119>>, Altitude |-> <<24, 251, 27, 64>>],
+  [Version |-> 0, Size |-> 1 * 16 + 2, HorizPre |-> 2 * 16, VertPre |-> 9 * 16 + 9, Latitude |-> <<128, 0, 0, 1>>, Longitude |-> <<127, 255, 255, 255>>, Altitude |-> <<0, 152, 150, 129>>],
+  [Version |-> 0, Size |-> 5 * 16 + 3, HorizPre |-> 16 + 1, VertPre |-> 16, Latitude |-> <<128, 0, 3, 232>>, Longitude |-> <<128, 0, 234, 96>>, Altitude |-> <<0, 152, 150, 28>>] >>
+LocMsg(j) == One1(29, LocCases[j])
+
 \* nasty owners, each with a TXT record
 OwnerMsg(j) == Msg(H0, <<>>, << RR(<< NastyLabels[j], <<120>> >>, 16, 1, Ttl1h, [Txt |-> << <<104, 105>> >>]) >>, <<>>, <<>>)
 
@@ -129,6 +139,7 @@ PInit ==
            \/ t = 16 /\ \E j \in 1..Len(NastyLabels) : v = <<0, 0, j>>
            \/ t = 50 /\ \E j \in 1..(Len(N3Salts) * Len(N3Maps)) : v = <<-1, 0, j>>
            \/ t = 37 /\ \E j \in 1..(Len(CertCodes) + Len(AlgCodes)) : v = <<-2, 0, j>>
+           \/ t = 29 /\ \E j \in 1..Len(LocCases) : v = <<-3, 0, j>>
   \/ PMode = "codes" /\ \E k \in 1..2 : \E c \in CodeSet : InShard(c) /\ v = <<k, c>>
 PNext == UNCHANGED v
 
@@ -136,6 +147,7 @@ PCase == IF PMode = "c01" THEN Case
          ELSE IF v[1] = 0 THEN OwnerMsg(v[3])
          ELSE IF v[1] = -1 THEN Nsec3Msg(v[3])
          ELSE IF v[1] = -2 THEN CertMsg(v[3])
+         ELSE IF v[1] = -3 THEN LocMsg(v[3])
          ELSE NastyMsg(v[1], v[2], v[3])
 
 PVector(m) ==
